@@ -50,6 +50,11 @@ def make_case(seed, shard, i):
         ident = f"m{j}" if r.random() < 0.55 else None
         members.append({"prog": prog, "ident": ident, "extra": extra})
     rows = lang.data_rows(r, header_prob=0.0 if headerless else 0.85)
+    if r.random() < 0.05:
+        # a big file: the archived data.csv / unmatched.csv / printouts.txt run to tens of KiB (sizes where
+        # chunked reading and writing, spooling and hashing of the archive files change path)
+        while len(rows) < 300:
+            rows += lang.data_rows(r, header_prob=0.0, nmax=60)
     for row in rows:
         for k in (2, 3):
             if len(row) > k and r.random() < 0.35:
